@@ -86,7 +86,7 @@ theorem J.is_facts {c : Ctx} {l : List Nat} (h : J c l) {i : Nat} (hi : c.is = s
     exact ⟨deleted_inb h3, fun hh => (by have := (h.clean.freeClean i hh).2.1; rw [h3] at this; cases this), h6⟩
 
 /-- the parent of a real slot lies inside the arena -/
-theorem Forest.parent_inb {s : Seg} (hF : Forest s) {j p : Nat} (hj : Real s j) (hp : (s.get j).parent = some p) : p < s.slots.size := by
+theorem forest_parent_inb {s : Seg} (hF : Forest s) {j p : Nat} (hj : Real s j) (hp : (s.get j).parent = some p) : p < s.slots.size := by
   obtain ⟨l, hk⟩ := hF.kids p (hF.par j p hj hp).1
   have hjl := hk.all j hj hp
   cases l with
@@ -222,6 +222,8 @@ theorem linkBefore_TS (s : Seg) (n i : Nat) : TS s (s.linkBefore n i) := by
   · refine TS.updR (TS.updR (TS.rfl' s) _ _ ?_) n _ ?_ <;> (intro _; exact ⟨rfl, rfl, rfl, rfl⟩)
   · refine TS.setFirstR (TS.updR (TS.rfl' s) n _ ?_) _ <;> (intro _; exact ⟨rfl, rfl, rfl, rfl⟩)
 
+theorem addGlyphs_TS (s : Seg) (d : Int) : TS s (s.addGlyphs d) := TS.addGlyphsR (TS.rfl' s) d
+
 theorem linkNew_TS (s : Seg) (n : Nat) (iss : Option Nat) : TS s (s.linkNew n iss) := by
   unfold Seg.linkNew
   cases iss with
@@ -273,5 +275,250 @@ theorem newSlot_copyFrame {s s' : Seg} {g k : Nat} (hinb : ∀ f ∈ s.free, f <
       rw [this] at hf
       obtain ⟨x, _, rfl⟩ := List.mem_map.mp hf
       omega
+
+/-! ## the opcodes that write the tree -/
+
+theorem attrSet_FC (c : Ctx) (a b : Nat) (v : Int) (hps : PS c) (h : FC c) : OutcomeP FC (opAttrSet c a b v) := by
+  unfold opAttrSet
+  split
+  · trivial
+  · rename_i i hi
+    obtain ⟨l, hj⟩ := hps
+    obtain ⟨his, hif, hir⟩ := hj.is_facts hi
+    split
+    · -- attach.to
+      unfold setAttTo
+      simp only []
+      split
+      · split
+        · exact h
+        · rename_i other hcell
+          split
+          · exact h
+          · rename_i hguard
+            have hg : ¬ (other = i) ∧ ¬ (some other = (c.seg.get i).parent) ∧ ¬ ((c.seg.get other).copied = true) ∧
+                ¬ ((c.seg.get other).deleted = true) := by
+              refine ⟨fun hh => hguard (.inl hh), fun hh => hguard (.inr (.inl hh)), fun hh => hguard (.inr (.inr (.inl hh))),
+                fun hh => hguard (.inr (.inr (.inr hh)))⟩
+            obtain ⟨hos, hof, _⟩ := h.2 _ other hcell
+            have hor : Real c.seg other := by
+              unfold Real; cases hq : (c.seg.get other).copied with
+              | false => rfl
+              | true => exact absurd hq hg.2.2.1
+            obtain ⟨hF', hfree', hcop', hpar'⟩ := attach_forest h.1 (decide (c.dir ≠ 0) != decide ((v % 65536).toNat > b))
+              hir hor (fun hh => hg.1 hh.symm) his hos hif hof
+            refine ⟨hF', h.2.frame rfl (copyFrame_of hfree' (attach_same _ _ _ _).size hcop' (fun j hj => hpar' j (fun hh => hj (hh ▸ hir))))⟩
+      · exact h
+    · simp only []
+      split <;> first
+        | exact h.updKeep _ _ (fun _ => ⟨rfl, rfl, rfl, rfl⟩)
+        | exact h
+
+theorem delete_FC (c : Ctx) (hps : PS c) (h : FC c) : OutcomeP FC (opDelete c) := by
+  unfold opDelete
+  split
+  · exact die_FC c h
+  · rename_i i hi
+    simp only []
+    split
+    · exact die_FC c h
+    · obtain ⟨l, hj⟩ := hps
+      obtain ⟨his, hif, hir⟩ := hj.is_facts hi
+      -- marking and unlinking do not touch the tree
+      have ta : TS c.seg (c.seg.upd i fun sl => sl.setDeleted true) := by
+        refine TS.updR (TS.rfl' _) i _ ?_
+        intro _; exact ⟨rfl, rfl, rfl, rfl⟩
+      have t1 : TS c.seg ((c.seg.upd i fun sl => sl.setDeleted true).unlink i) := ta.trans (unlink_TS _ i)
+      have hF1 := forest_congr t1.1 h.1
+      have hir1 : Real ((c.seg.upd i fun sl => sl.setDeleted true).unlink i) i := by unfold Real; rw [(t1.1.fld i).2.2.2]; exact hir
+      obtain ⟨hF2, hfree2, hcop2, hpar2⟩ := detach_forest hF1 hir1
+      have hsz2 : (((c.seg.upd i fun sl => sl.setDeleted true).unlink i).detach i).slots.size = c.seg.slots.size := by
+        have : (((c.seg.upd i fun sl => sl.setDeleted true).unlink i).detach i).slots.size =
+            ((c.seg.upd i fun sl => sl.setDeleted true).unlink i).slots.size := by
+          unfold Seg.detach
+          exact ((unparent_same _ i).tr (detachChildren_same _ _ _)).size
+        rw [this, t1.2]
+      have t3 := (addGlyphs_TS (((c.seg.upd i fun sl => sl.setDeleted true).unlink i).detach i) (-1)).1
+      refine ⟨forest_congr t3 hF2, ?_⟩
+      have cf1 := copyFrame_of_treeSame t1.1 t1.2
+      have cf2 : CopyFrame ((c.seg.upd i fun sl => sl.setDeleted true).unlink i)
+          (((c.seg.upd i fun sl => sl.setDeleted true).unlink i).detach i) :=
+        copyFrame_of hfree2 (by rw [hsz2, t1.2]) hcop2 hpar2
+      have cf3 := copyFrame_of_treeSame t3 (by rfl)
+      have cf := (cf1.trans cf2 (fun j hj => by unfold Real; rw [(t1.1.fld j).2.2.2]; exact hj)).trans cf3
+        (fun j hj => by unfold Real; rw [hcop2, (t1.1.fld j).2.2.2]; exact hj)
+      refine CellsOK.frame h.2 ?_ cf
+      unfold Ctx.setIs Ctx.withSeg Ctx.moveHighwater
+      split <;> rfl
+
+theorem insert_FC (c : Ctx) (hps : PS c) (h : FC c) : OutcomeP FC (opInsert c) := by
+  unfold opInsert
+  simp only []
+  have h' : FC (c.setMaxSize (c.maxSize - 1)) := h.congr rfl rfl
+  split
+  · exact die_FC _ h'
+  · split
+    · exact die_FC _ h'
+    · rename_i k seg heq
+      obtain ⟨l, hj⟩ := hps
+      simp only [setMaxSize_seg] at heq
+      obtain ⟨hF1, _, _, _, _, hcop1, _⟩ := newSlot_forest h.1 hj.clean.freeNodup heq
+      obtain ⟨cf1, _, _⟩ := newSlot_copyFrame hj.clean.freeInb heq
+      have t2 := (linkNew_TS seg k (skipDeleted seg (seg.slots.size + 1) (c.setMaxSize (c.maxSize - 1)).is)).trans
+        (addGlyphs_TS _ 1)
+      have cf := cf1.trans (copyFrame_of_treeSame t2.1 t2.2) (fun j hj => by unfold Real at hj ⊢; rw [hcop1]; exact hj)
+      refine ⟨?_, ?_⟩
+      · simp only [setMap_seg, setIs_seg, withSeg_seg]
+        exact forest_congr t2.1 hF1
+      · refine CellsOK.frame h.2 ?_ (by simp only [setMap_seg, setIs_seg, withSeg_seg]; exact cf)
+        unfold Ctx.setMap Ctx.setIs Ctx.withSeg Ctx.markHighpassed Ctx.setMaxSize
+        split <;> rfl
+
+theorem copySlot_assoc_size (s : Seg) (i rf : Nat) : (s.copySlot i rf).slots.size = s.slots.size := by
+  unfold Seg.copySlot
+  simp only []
+  split
+  · split
+    · rw [(child_same _ _ _).size]; simp
+    · rw [upd_size, (child_same _ _ _).size]; simp
+  · simp
+
+theorem unmark_treeSame {s : Seg} {i : Nat} (hi : Real s i) : TS s (s.unmark i) := by
+  unfold Seg.unmark
+  refine ⟨⟨rfl, fun j => ?_⟩, by simp⟩
+  rw [get_upd]
+  split
+  · rename_i hh
+    rw [hh.1]
+    exact ⟨rfl, rfl, rfl, by show false = _; rw [show (s.get i).copied = false from hi]⟩
+  · exact ⟨rfl, rfl, rfl, rfl⟩
+
+theorem slotat_cell {c : Ctx} {x : Int} {rf : Nat} (h : (slotat c x).1 = some rf) : ∃ k, c.smap.getD k none = some rf := by
+  unfold slotat at h
+  simp only [] at h
+  split at h
+  · exact ⟨_, h⟩
+  · cases h
+
+theorem slotat_smap (c : Ctx) (x : Int) : (slotat c x).2.smap = c.smap := by
+  unfold slotat; simp only []; split <;> rfl
+
+theorem putCopy_FC (c : Ctx) (r : Int) (hps : PS c) (h : FC c) : OutcomeP FC (opPutCopy c r) := by
+  unfold opPutCopy
+  split
+  · exact h
+  · rename_i i hi
+    split
+    · exact h
+    · obtain ⟨l, hj⟩ := hps
+      obtain ⟨his, hif, hir⟩ := hj.is_facts hi
+      simp only []
+      have hseg : (slotat c r).2.seg = c.seg := slotat_seg c r
+      have h' : FC (slotat c r).2 := slotat_FC c r h
+      have hunm : FC ((slotat c r).2.withSeg ((slotat c r).2.seg.unmark i)) := by
+        have t := unmark_treeSame (s := (slotat c r).2.seg) (i := i) (by rw [hseg]; exact hir)
+        exact ⟨forest_congr t.1 h'.1, h'.2.frame rfl (copyFrame_of_treeSame t.1 t.2)⟩
+      split
+      · rename_i rf hrf
+        split
+        · split
+          · exact die_FC _ h'
+          · rename_i hguard
+            have hp0 : ((slotat c r).2.seg.get i).parent = none := by
+              cases hq : ((slotat c r).2.seg.get i).parent with
+              | none => rfl
+              | some x => exact absurd (.inl (by rw [hq]; rfl)) hguard
+            have hc0 : ((slotat c r).2.seg.get i).child = none := by
+              cases hq : ((slotat c r).2.seg.get i).child with
+              | none => rfl
+              | some x => exact absurd (.inr (by rw [hq]; rfl)) hguard
+            obtain ⟨k, hk⟩ := slotat_cell hrf
+            obtain ⟨hrs, hrfree, hrr⟩ := h.2 k rf hk
+            rw [hseg] at hp0 hc0 ⊢
+            have hgood : ∀ p, (c.seg.get rf).parent = some p → Real c.seg p ∧ p ∉ c.seg.free ∧ p < c.seg.slots.size := by
+              intro p hp
+              by_cases hreal : Real c.seg rf
+              · exact ⟨(h.1.par rf p hreal hp).1, (h.1.par rf p hreal hp).2, forest_parent_inb h.1 hreal hp⟩
+              · rcases hrr with hrr | hrr
+                · exact absurd hrr hreal
+                · exact hrr p hp
+            obtain ⟨hF', hfree', hcop', hpar'⟩ := copySlot_forest h.1 hir hp0 hc0 hif his hgood
+            have hsz : ((c.seg.copySlot i rf).unmark i).slots.size = c.seg.slots.size := by
+              unfold Seg.unmark
+              rw [upd_size]
+              exact (copySlot_assoc_size c.seg i rf)
+            refine ⟨hF', CellsOK.frame h.2 (slotat_smap c r) (copyFrame_of hfree' hsz hcop' (fun j hj => hpar' j (fun hh => hj (hh ▸ hir))))⟩
+        · exact hunm
+      · exact hunm
+
+theorem tempCopy_FC (c : Ctx) (hps : PS c) (h : FC c) : OutcomeP FC (opTempCopy c) := by
+  unfold opTempCopy
+  split
+  · rename_i n seg i heq hisq
+    obtain ⟨l, hj⟩ := hps
+    obtain ⟨his, hif, hir⟩ := hj.is_facts hisq
+    split
+    · obtain ⟨hF1, hrn, hpn, hcn, hnf, hcop1, _, _, hpar1⟩ := newSlot_forest h.1 hj.clean.freeNodup heq
+      obtain ⟨cf1, hns, hnold⟩ := newSlot_copyFrame hj.clean.freeInb heq
+      have hF2 := forest_of_becomes_copy hF1 hrn hpn hcn hnf (fun _ => (seg.get i).setCopied true) (fun _ => rfl) hns
+      -- the frame from the old segment to the one with the copy in it
+      have hne : ∀ j, j < c.seg.slots.size → j ∉ c.seg.free → j ≠ n := fun j a b hh => by
+        rcases hnold with h1 | h1
+        · exact b (hh ▸ h1)
+        · omega
+      have cf : CopyFrame c.seg (seg.upd n fun _ => (seg.get i).setCopied true) := by
+        refine ⟨by simpa using cf1.size, fun f hf => cf1.free f (by simpa using hf), fun j a b hjr => ?_, fun j hjn => ?_⟩
+        · unfold Real; rw [get_upd_ne _ _ _ _ (hne j a b)]; exact cf1.real j a b hjr
+        · have hjn1 : ¬ Real seg j := fun hh => hjn (by unfold Real at hh ⊢; rw [← hcop1]; exact hh)
+          have : j ≠ n := fun hh => hjn1 (hh ▸ hrn)
+          rw [get_upd_ne _ _ _ _ this]; exact cf1.cop j hjn
+      refine ⟨by simpa using hF2, ?_⟩
+      intro k x hx
+      simp only [Ctx.setCell, Ctx.withSeg] at hx ⊢
+      rw [Array.getD_eq_getD_getElem?, Array.getElem?_setIfInBounds] at hx
+      split at hx
+      · rename_i hk
+        split at hx
+        · -- the cell that now holds the copy
+          simp only [Option.getD_some, Option.some.injEq] at hx
+          subst hx
+          refine ⟨by simpa using hns, by simpa using hnf, .inr ?_⟩
+          intro p hp
+          rw [get_upd_self _ _ _ hns] at hp
+          have hp' : (c.seg.get i).parent = some p := by rw [← hpar1]; exact hp
+          have hpp := h.1.par i p hir hp'
+          have hps' := forest_parent_inb h.1 hir hp'
+          refine ⟨cf.real p hps' hpp.2 hpp.1, fun hh => ?_, Nat.lt_of_lt_of_le hps' cf.size⟩
+          rcases cf.free p hh with h1 | h1
+          · exact hpp.2 h1
+          · omega
+        · simp at hx
+      · have hx' : c.smap.getD k none = some x := by rw [Array.getD_eq_getD_getElem?]; exact hx
+        obtain ⟨h1, h2, h3⟩ := h.2 k x hx'
+        refine ⟨Nat.lt_of_lt_of_le h1 cf.size, fun hh => ?_, ?_⟩
+        · rcases cf.free x hh with h | h
+          · exact h2 h
+          · omega
+        · by_cases hr : Real c.seg x
+          · exact .inl (cf.real x h1 h2 hr)
+          · rcases h3 with h3 | h3
+            · exact absurd h3 hr
+            · exact .inr (goodCopy_frame cf hr h3)
+    · trivial
+  · exact die_FC c h
+
+/-- **every slot-manipulating opcode keeps the stream, the attachment forest and the cell invariant** -/
+theorem ops_PF : OpsPreserve PF := by
+  refine ⟨?_, ?_, ?_, ?_, ?_, ?_, ?_, ?_, ?_, ?_⟩
+  · intro c h; exact outcomeP_and (next_PS c h.1) (next_FC c h.2)
+  · intro c h; exact outcomeP_and (insert_PS c h.1) (insert_FC c h.1 h.2)
+  · intro c h; exact outcomeP_and (delete_PS c h.1) (delete_FC c h.1 h.2)
+  · intro c r h; exact outcomeP_and (putCopy_PS c r h.1) (putCopy_FC c r h.1 h.2)
+  · intro c rs h; exact outcomeP_and (assoc_PS c rs h.1) (assoc_FC c rs h.2)
+  · intro c h; exact outcomeP_and (tempCopy_PS c h.1) (tempCopy_FC c h.1 h.2)
+  · intro c a b v h; exact outcomeP_and (attrSet_PS c a b v h.1) (attrSet_FC c a b v h.1 h.2)
+  · intro c k h; exact outcomeP_and (putGlyph_PS c k h.1) (putGlyph_FC c k h.2)
+  · intro c r i o h; exact outcomeP_and (putSubs_PS c r i o h.1) (putSubs_FC c r i o h.2)
+  · intro c x h; exact ⟨slotat_PS c x h.1, slotat_FC c x h.2⟩
 
 end GrVerif.Action
